@@ -121,6 +121,18 @@ CHECKS = {
              "the specification is the documented contract only (no Impl layer: the derives are straight-line).",
         technique="TLA+ contract (Ops) + TLC enumeration, replay on instrumented operand types",
         design="4 (C10)"),
+    "C11": dict(
+        text="TLC enumerates Variants.tla's contract tables (is_x / unwrap_x* / try_unwrap_x* / TryFrom<Enum> per value variant "
+             "and accessor) for every enum of up to 2 (quick) / 3 (thorough) variants over unit/tuple/named kinds, type-tuple "
+             "sharing, ignored flags and a generic flag, and checks its laws (exactly one is_x, exactly one TryInto target per live "
+             "value); every enum is compiled with the four real derives and the complete (value, accessor) table is "
+             "observed: payloads by value, reference forms by address, writes through _mut, panics caught, error payload equal "
+             "to the unchanged original.",
+        note="the contract is Doc-only (no Impl layer); which of owned/ref/ref_mut forms exist is requested explicitly "
+             "(`#[unwrap(owned, ref, ref_mut)]`), as the property does not fix the default; named variants only for "
+             "IsVariant/TryInto; generic enums without TryInto (orphan rule).",
+        technique="TLA+ contract (Variants) + TLC enumeration, replay of the full accessor table on real enums",
+        design="4 (C11)"),
 }
 
 NOT_YET = {}
